@@ -855,7 +855,13 @@ pub fn run_history<S: Sys>(unique: bool, ops: &[ObsOp], follow_upgrade: bool) ->
                     _ => false,
                 };
                 if !ok {
-                    let prop = if matches!(exp, Poll::Ready(None)) || matches!(r, Poll::Ready(None)) { "C03" } else { "C01" };
+                    let prop = if matches!(exp, Poll::Ready(Some(_))) && matches!(r, Poll::Ready(None)) {
+                        "C03+C01" // ended while an owner exists, and the unobserved update is not handed out
+                    } else if matches!(exp, Poll::Ready(None)) || matches!(r, Poll::Ready(None)) {
+                        "C03"
+                    } else {
+                        "C01"
+                    };
                     fail!(prop, op, "poll result differs from the reference (ready exactly on an unobserved notifying update; None exactly when every owner is gone)", step, format!("{:?}", exp), format!("{:?}", r));
                 }
                 let _ = was_parked;
@@ -898,8 +904,10 @@ pub fn run_history<S: Sys>(unique: bool, ops: &[ObsOp], follow_upgrade: bool) ->
                 sys.clear_flags(s);
             }
         }
-        // ---- C19 counts, as reported by every owner
-        for i in 0..sys.owners().min(if m.unique { 1 } else { m.owners }) {
+        // ---- C19 counts, as reported by every owner (not when the run is focused on a property the counts say nothing
+        // about: a history stops at its first failure, and a count mismatch must not hide what happens afterwards)
+        let counts_in_focus = !matches!(crate::scenario::FOCUS.get().and_then(|f| f.as_deref()), Some("C01") | Some("C02") | Some("C03") | Some("C20"));
+        for i in 0..(if counts_in_focus { sys.owners().min(if m.unique { 1 } else { m.owners }) } else { 0 }) {
             let (oc, sc, st, wk) = sys.counts(i);
             let exp = (m.owners, m.subs.len(), m.owners + m.subs.len(), m.weaks);
             if (oc, sc, st, wk) != exp {
@@ -972,7 +980,7 @@ pub fn run_held(sc: &HeldScenario) -> Option<ObsFailure> {
     let cls = |k: &str| format!("async-lock/held-guard:{}", k);
     macro_rules! fail {
         ($k:expr, $what:expr, $exp:expr, $obs:expr) => {
-            return Some(ObsFailure { property: "C16", classification: cls($k), what: $what.to_string(), step: 0, expected: $exp, observed: $obs })
+            return Some(ObsFailure { property: match $k { "lost-wakeup" => "C16+C02", "lock-leak" => "C16+C02", _ => "C16+C01" }, classification: cls($k), what: $what.to_string(), step: 0, expected: $exp, observed: $obs })
         };
     }
     // model
@@ -1115,6 +1123,34 @@ pub fn run_held(sc: &HeldScenario) -> Option<ObsFailure> {
                 break;
             }
             fail!("lost-wakeup", "the lock was released but an operation waiting for it was never woken", "all queued operations complete".to_string(), format!("still pending, not woken: {:?}", stuck));
+        }
+    }
+    // a subscriber future that is still pending must have nothing to report: if a poll by hand completes it now,
+    // an item was available and its waker was never woken (C02)
+    for e in futs.iter_mut() {
+        if e.1.is_some() && !e.2.is_set() {
+            poll_one(e);
+            if let Some(r) = &e.3 {
+                {
+                    fail!("lost-wakeup", "a pending subscriber future had a result available but its waker was never woken", "woken when the result became available".to_string(), format!("{:?} completes with {:?} only when polled by hand", e.0, r));
+                }
+            }
+        }
+    }
+    // no guard exists any more and every writer is done: the lock must be free (a forgotten acquisition would
+    // block every later writer)
+    {
+        let mut probe: Pin<Box<dyn Future<Output = Val>>> = Box::pin(async move { owner.get().await });
+        let fl = Flag::new();
+        let w = flag_waker(&fl);
+        let mut cx = Context::from_waker(&w);
+        let free_r = matches!(probe.as_mut().poll(&mut cx), Poll::Ready(_));
+        drop(probe);
+        let mut probe_w: Pin<Box<dyn Future<Output = bool>>> = Box::pin(async move { drop(owner.write().await); true });
+        let free_w = futs.iter().any(|e| e.1.is_some()) || matches!(probe_w.as_mut().poll(&mut cx), Poll::Ready(_));
+        drop(probe_w);
+        if !free_r || !free_w {
+            fail!("lock-leak", "no guard is held and no operation is waiting, yet the lock cannot be taken: an acquisition was left behind", "lock free".to_string(), format!("read lock free: {}, write lock free: {}", free_r, free_w));
         }
     }
     // compare with the reference. Writers (and single-acquisition readers) take effect one after the other in queue
